@@ -52,6 +52,8 @@ void GMGPolar::solve()
 
             std::pair<double, double> exact_error = computeExactError(level, level.solution(), level.residual());
             exact_errors_.push_back(exact_error);
+            GMGPOLAR_VERIF_TRACE("exactError", number_of_iterations_, {&level.solution(), &level.residual()},
+                                 {exact_error.first, exact_error.second});
 
             auto end_check_exact_error = std::chrono::high_resolution_clock::now();
             t_check_exact_error +=
@@ -93,6 +95,7 @@ void GMGPolar::solve()
                 throw std::invalid_argument("Unknown ResidualNormType");
             }
             residual_norms_.push_back(current_residual_norm);
+            GMGPOLAR_VERIF_TRACE("residualNorm", number_of_iterations_, {&level.residual()}, {current_residual_norm});
 
             if (number_of_iterations_ == 0) {
                 initial_residual_norm          = current_residual_norm;
@@ -124,6 +127,12 @@ void GMGPolar::solve()
             t_check_convergence +=
                 std::chrono::duration<double>(end_check_convergence - start_check_convergence).count();
 
+#ifdef GMGPOLAR_VERIF
+            if (converged(current_residual_norm, current_relative_residual_norm)) {
+                GMGPOLAR_VERIF_TRACE("converged", number_of_iterations_, {&level.solution()},
+                                     {current_residual_norm, current_relative_residual_norm});
+            }
+#endif
             if (converged(current_residual_norm, current_relative_residual_norm))
                 break;
         }
@@ -245,6 +254,7 @@ void GMGPolar::initializeSolution()
 
         // Solve directly on the coarsest level
         FMG_level.solution() = FMG_level.rhs();
+        GMGPOLAR_VERIF_TRACE("copy", FMG_start_level_depth, {&FMG_level.solution(), &FMG_level.rhs()});
         FMG_level.directSolveInPlace(FMG_level.solution()); // Direct solve on coarsest grid
 
         // Prolongate the solution from the coarsest level up to the finest, while applying Multigrid Cycles on each level
@@ -373,6 +383,7 @@ std::pair<double, double> GMGPolar::computeExactError(Level& level, const Vector
 void GMGPolar::extrapolatedResidual(const int current_level, Vector<double>& residual,
                                     const Vector<double>& residual_next_level)
 {
+    GMGPOLAR_VERIF_TRACE("extrapolatedResidual", current_level, {&residual, &residual_next_level});
     omp_set_num_threads(threads_per_level_[current_level]);
 
     const PolarGrid& fineGrid   = levels_[current_level].grid();
